@@ -635,6 +635,24 @@ def match_finding(findings, prop, sig):
 # =====================================================================================
 # main check
 # =====================================================================================
+def _stub_list(mod):
+    """Every environment stub is part of the claim: listed with the harness's own assumptions."""
+    from . import shims
+
+    if getattr(mod, "PROP", "") in ("C05", "C06"):
+        out = ["stub: abstract Term / TermList domain with nondeterministic primitives within their documented contracts (pv/abstract.py)"]
+        if getattr(mod, "PROP", "") == "C05":
+            return out
+    else:
+        out = []
+    out += ["stub: " + s for s in shims.STUBS_DOC]
+    if getattr(mod, "SETUP", {}).get("plots"):
+        from . import plots_shim
+
+        out += ["stub: " + s for s in plots_shim.STUBS_DOC]
+    return out
+
+
 def run_check(prop, tier, seed=None):
     t0 = time.time()
     seed = int(os.environ.get("VERIF_SEED", "0") if seed is None else seed)
@@ -880,7 +898,7 @@ def run_check(prop, tier, seed=None):
             "replay_errors": replay_errors[:3],
             "exhaustive": False,
         },
-        "assumptions": list(getattr(mod, "ASSUMPTIONS", [])),
+        "assumptions": list(getattr(mod, "ASSUMPTIONS", [])) + _stub_list(mod),
         "wall_s": round(wall, 2),
         "violations": len(violations),
     }
